@@ -13,6 +13,8 @@ package extensions
 import (
 	"context"
 	"fmt"
+	"regexp"
+	"strings"
 	"testing"
 
 	"go.opentelemetry.io/collector/component"
@@ -42,9 +44,114 @@ func vBuildExts(rng *vRand, specs []vExtSpec) (*vWorld, *Extensions, error) {
 	return w, x, err
 }
 
+// vCyclic: extension sets whose Dependencies() declarations contain a cycle must be rejected by
+// extensions.New (computeOrder) with an error that names a cycle (case kind 7).
+var vCycleRx = regexp.MustCompile(`cycle found \[([^\]]*)\]`)
+
+func vCyclicRun(out *vOut, rng *vRand) {
+	specs := vGenExts(rng, 6, false)
+	for len(specs) < 2 {
+		specs = vGenExts(rng, 6, false)
+	}
+	n := len(specs)
+	// close a cycle of length 1..3 through extensions that implement Dependent
+	clen := 1 + rng.Pick(1, 4, 3)
+	if clen > n {
+		clen = n
+	}
+	cyc := rng.Intn(n)
+	nodes := []int{cyc}
+	for len(nodes) < clen {
+		c := rng.Intn(n)
+		if !vHas(nodes, c) {
+			nodes = append(nodes, c)
+		}
+	}
+	for i, a := range nodes {
+		b := nodes[(i+1)%len(nodes)] // b depends on a: edge a -> b
+		specs[b].isDep = true
+		if !vHas(specs[b].deps, a) {
+			specs[b].deps = append(specs[b].deps, a)
+		}
+	}
+	var exts []int
+	var deps [][2]int
+	for _, s := range specs {
+		exts = append(exts, s.idx)
+		for _, d := range s.deps {
+			deps = append(deps, [2]int{d, s.idx})
+		}
+	}
+	var w *vWorld
+	var err error
+	panicked := 0
+	func() {
+		defer func() {
+			if r := recover(); r != nil {
+				panicked = 1
+				err = fmt.Errorf("panic: %v", r)
+			}
+		}()
+		w, _, err = vBuildExts(rng, specs)
+	}()
+	if w == nil {
+		w = &vWorld{}
+	}
+	var named []int
+	if err != nil {
+		if m := vCycleRx.FindStringSubmatch(err.Error()); m != nil {
+			for _, nm := range strings.Split(m[1], " -> ") {
+				for _, s := range specs {
+					if vExtID(s.idx).String() == strings.TrimSpace(nm) {
+						named = append(named, s.idx)
+					}
+				}
+			}
+		}
+	}
+	// gonum lists the start node at both ends of a cycle
+	if len(named) >= 2 && named[0] == named[len(named)-1] {
+		named = named[:len(named)-1]
+	}
+	term := "(7, ([" + vInts(exts) + "; " + vInts(named) + "; " + vInts([]int{panicked}) + "], [" + vPairs(deps) + "]))"
+	if panicked == 1 {
+		// an extension that lists ITSELF among its dependencies: gonum's SetEdge panics inside
+		// computeOrder ("simple: adding self edge").  No service is built, so no clause of this
+		// property is concerned; the model reproduces the panic (Model.compute_order), recorded as a histogram.
+		out.Stat("cyclic-exts:self-dependency-panics", 1)
+	} else if err == nil {
+		out.Oracle("ext-cycle", term, "extensions.New accepted a cyclic dependency declaration")
+	} else {
+		// direct oracle: the named cycle is a real cycle of the declared dependencies
+		ok := len(named) > 0
+		for i, a := range named {
+			b := named[(i+1)%len(named)]
+			found := false
+			for _, d := range deps {
+				if d[0] == a && d[1] == b {
+					found = true
+				}
+			}
+			ok = ok && found
+		}
+		if !ok {
+			out.Oracle("ext-cycle", term, fmt.Sprintf("the error does not name a cycle of the declared dependencies: %v", err))
+		}
+	}
+	if len(w.log) > 0 {
+		out.Oracle("ext-cycle", term, "an extension was started or stopped although the set was rejected")
+	}
+	out.Case(true, term)
+	out.Stat(fmt.Sprintf("cyclic-exts:cycle-length=%d", len(nodes)), 1)
+}
+
 func TestVerifC10Ext(t *testing.T) {
 	out := vOpen()
 	defer out.Close()
+	crng := vNewRand(1017)
+	for i := 0; i < vBudget(60, 10); i++ {
+		vCyclicRun(out, crng)
+	}
 	rng := vNewRand(1011)
 	nsets := vBudget(40, 12)
 	for si := 0; si < nsets; si++ {
